@@ -522,7 +522,6 @@ func c20Entries(c *Ctx) {
 	c.Check(ok, "O20.6", fk(da)+":entry-decoded-fresh-and-copied-whole", da.Pos(), "decodeAmmo unmarshals into a fresh local and calls am.Reset(local.Tag, local.Call, local.Metadata, local.Payload) on the pooled ammo (no field of the previous entry survives)")
 }
 
-
 // isGenericStd: a call of (an instantiation of) the generic standard-library function pkg.name.
 func isGenericStd(cl *ssa.Call, pkg, name string) bool {
 	sc := cl.Call.StaticCallee()
